@@ -4,8 +4,6 @@ CONSTANTS
   NProcs = 1
   MaxCache = 1
   MaxCalls = 100
-  MaxToggles = 2
-  MaxRegs = 2
   Gates = {}
   ToggleAnytime = FALSE
   RegisterAnytime = FALSE
